@@ -11,6 +11,8 @@ inductive MEv where
   | create (rel : Bool) (ty : Nat)  -- Create*Tube
   | accept                          -- Accept
   | reap (k : Key)                  -- the tube finished its close handshake and was reaped
+  | shut (k : Key)                  -- a locally opened reliable tube finished its close handshake;
+                                    -- the identifier stays reserved until `reap`
   | read (k : Key) (n : Nat)        -- Read on a held tube
 
 inductive MObs where
@@ -18,6 +20,7 @@ inductive MObs where
   | created (rel : Bool) (id : Nat)
   | offered (rel : Bool) (id : Nat) (ty : Nat)     -- returned by Accept
   | reaped (k : Key)
+  | shut (k : Key)
   | bytes (k : Key) (b : Bytes)                    -- reliable Read
   | msg (k : Key) (b : Bytes) (truncated : Bool)   -- unreliable Read
   deriving Repr, DecidableEq
@@ -34,6 +37,9 @@ def mStep (m : Mux) : MEv → Mux × MObs
     | (m', Option.none) => (m', .none)
   | .reap k => match reap m k with
     | (m', true) => (m', .reaped k)
+    | (m', false) => (m', .none)
+  | .shut k => match shut m k with
+    | (m', true) => (m', .shut k)
     | (m', false) => (m', .none)
   | .read k n => match readTube m k n with
     | (m', .data b fl) => (m', if k.1 then .bytes k b else .msg k b fl)
@@ -55,6 +61,7 @@ def target (m : Mux) : MEv → Option Key
   | .create rel _ => (pickTubeID m rel).map fun id => (rel, id)
   | .accept => m.queue.head?.map (·.key)
   | .reap k => some k
+  | .shut k => some k
   | .read k _ => some k
 
 end Tubes
